@@ -12,6 +12,10 @@ from .pvals import *
 from .symex import Res, is_val, APP, APP_RAISES, APP_EXC, metacls, clsattr, PExcArgs, SENTINELS
 
 
+IT_N = z3.Function("it_n", Val, I)
+IT_ARR = z3.Function("it_arr", Val, ArrIV)
+
+
 class PMeth:
     """bound method of a built-in container / engine-level object"""
     def __init__(self, recv, name):
@@ -266,6 +270,9 @@ class Models:
 
     def inst_getattr(self, eng, st, v, k, ci, name, fx):
         r = eng.ft.lookup_method(ci.qual, name)
+        if r is None and name.startswith("_") and "__" in name[1:]:
+            # name-mangled private member (_Class__name)
+            r = eng.ft.lookup_method(ci.qual, name[name.index("__", 1):])
         if r is not None:
             if r[0] == "prop":
                 p = r[1]
@@ -495,7 +502,7 @@ class Models:
         m = z3.If(h0 > l0, h0 - l0, 0)
         src = st.get("lelem", a)
         j = z3.Int("j!sl")
-        arr = z3.Lambda([j], z3.Select(src, j + l0))
+        arr = z3.Lambda([j], z3.If(z3.And(j >= 0, j < m), z3.Select(src, j + l0), ABSENT))
         v = eng.alloc_list_sym(st, m, arr, kind)
         return [Res("ok", st, v)]
 
@@ -709,8 +716,10 @@ class Models:
         ka, kb = st.get("dkey", a), st.get("dkey", b)
         st.put("dkey", ra, z3.Lambda([k], z3.If(z3.Select(ha, k), z3.Select(ka, k), z3.Select(kb, k))))
         sz = fresh("usz", I)
-        st.assume(sz >= 0, sz >= st.get("dsize", a), sz >= st.get("dsize", b),
-                  sz <= st.get("dsize", a) + st.get("dsize", b))
+        common, cw = fresh("common", I), fresh("cw")
+        st.assume(sz == st.get("dsize", a) + st.get("dsize", b) - common, common >= 0,
+                  common <= st.get("dsize", a), common <= st.get("dsize", b),
+                  z3.Implies(common > 0, z3.And(z3.Select(ha, cw), z3.Select(hb, cw))))
         st.put("dsize", ra, sz)
         return r
 
@@ -755,6 +764,17 @@ class Models:
         return n, ks, pos
 
     def iter_plan(self, eng, st, v, fx):
+        """iteration plan of v; every plan handed out is recorded in the state (ghost) so that a
+        contract can speak about 'the items obtained by iterating argument v'."""
+        out = []
+        for r in self._iter_plan(eng, st, v, fx):
+            if r.kind == "ok":
+                r.st.ghost = dict(r.st.ghost)
+                r.st.ghost["iterplans"] = r.st.ghost.get("iterplans", ()) + ((v, r.val),)
+            out.append(r)
+        return out
+
+    def _iter_plan(self, eng, st, v, fx):
         for h in self.iter_hooks:
             r = h(eng, st, v, fx)
             if r is not None:
@@ -797,6 +817,7 @@ class Models:
             a = a_of(v)
             if k in ("list", "tuple"):
                 n, el = s2.get("llen", a), s2.get("lelem", a)
+                s2.assume(n >= 0)
                 p = PSeq(n, lambda s, kk, el=el: z3.Select(el, kk), k)
                 p.arr = el
                 out.append(Res("ok", s2, p))
@@ -809,11 +830,10 @@ class Models:
     def opaque_iter(self, eng, st, v, fx):
         """iterating a foreign iterable: a finite sequence of arbitrary values (may also raise TypeError
         when the value is not iterable at all)."""
-        n = fresh("itn", I)
-        arr = fresh("itv", ArrIV)
+        # A-ITER: the sequence an opaque iterable yields is a function of the object
+        n = IT_N(v)
+        arr = IT_ARR(v)
         st.assume(n >= 0)
-        st.ghost = dict(st.ghost)
-        st.ghost["iters"] = st.ghost.get("iters", ()) + ((v, n, arr),)
         p = PSeq(n, lambda s, k: z3.Select(arr, k), "opaque iterable")
         p.arr = arr
         p.opaque = True
@@ -1003,7 +1023,7 @@ class Models:
                 n, src = st.get("llen", a), st.get("lelem", a)
                 j = z3.Int("j!rev")
                 eng.check_write(st, a, "list reverse")
-                st.put("lelem", a, z3.Lambda([j], z3.Select(src, n - 1 - j)))
+                st.put("lelem", a, z3.Lambda([j], z3.Select(src, n - 1 - j)))      # stays normalised
                 return [Res("ok", st, NONE)]
             if name == "extend":
                 out = []
@@ -1049,10 +1069,11 @@ class Models:
                 ka, kb = st.get("dkey", a), st.get("dkey", b)
                 eng.check_write(st, a, "dict update")
                 sz = fresh("updsz", I)
-                st.assume(sz >= st.get("dsize", a), sz >= st.get("dsize", b),
-                          sz <= st.get("dsize", a) + st.get("dsize", b),
-                          z3.Implies(z3.ForAll([k], z3.Not(z3.And(z3.Select(ha, k), z3.Select(hb, k)))),
-                                     sz == st.get("dsize", a) + st.get("dsize", b)))
+                common, cw = fresh("common", I), fresh("cw")
+                # |A u B| = |A| + |B| - |A n B|; a non-empty intersection has a witness key
+                st.assume(sz == st.get("dsize", a) + st.get("dsize", b) - common, common >= 0,
+                          common <= st.get("dsize", a), common <= st.get("dsize", b),
+                          z3.Implies(common > 0, z3.And(z3.Select(ha, cw), z3.Select(hb, cw))))
                 st.put("dhas", a, z3.Lambda([k], z3.Or(z3.Select(ha, k), z3.Select(hb, k))))
                 st.put("dval", a, z3.Lambda([k], z3.If(z3.Select(hb, k), z3.Select(vb, k), z3.Select(va, k))))
                 st.put("dkey", a, z3.Lambda([k], z3.If(z3.Select(ha, k), z3.Select(ka, k), z3.Select(kb, k))))
@@ -1266,6 +1287,20 @@ class Models:
             r = h(eng, st, obj, name, dflt, fx)
             if r is not None:
                 return r
+        if is_val(obj) and is_val(name) and eng.static_class(st, obj) is None:
+            # foreign object, symbolic attribute name: instance dict, then its class
+            sid = s_of(name)
+            iv = z3.If(is_ref(obj), z3.Select(st.get("idict", a_of(obj)), sid), ABSENT)
+            val = z3.If(is_absent(iv), clsattr(eng.type_of(st, obj), sid), iv)
+            out = []
+            for s2, b in eng.split(st, is_absent(val), note="dynamic attr missing"):
+                if not b:
+                    out.append(Res("ok", s2, val))
+                elif dflt is not None:
+                    out.append(Res("ok", s2, dflt))
+                else:
+                    out.append(eng.exc(s2, "AttributeError", note="no such attribute"))
+            return out
         raise Unsupported("getattr with a symbolic name")
 
     def bi_setattr(self, eng, st, pos, kw, fx):
